@@ -450,12 +450,68 @@ func c14MgrHealthGen(tier string, rng *rand.Rand) []c13Case {
 			}
 			return o
 		}
-		for _, p := range v {
+		listed := append([]c13Ep(nil), f...) // what the registry currently answers
+		down := map[string]bool{}
+		for vi, p := range v {
 			c.Ops = append(c.Ops, c13Op{Op: "remove", Eps: []c13Ep{inst[p]}})
 			cur = without(cur, inst[p].Host)
+			down[inst[p].Host] = true
 			sel(cur)
+			if (it+vi)%2 == 0 {
+				// while the endpoint is out and still listed, the registry answers with a CHANGED list: a newcomer, one
+				// healthy endpoint gone, or a changed weight; what is installed is the answer minus the endpoints that are out
+				victim := map[string]bool{}
+				for _, q := range v {
+					victim[inst[q].Host] = true
+				}
+				var spare []int // healthy endpoints that are not going to be taken out later
+				for j, e := range listed {
+					if !victim[e.Host] {
+						spare = append(spare, j)
+					}
+				}
+				how := rng.Intn(3)
+				if how == 1 && len(spare) < 2 {
+					how = 0 // always keep one endpoint that stays healthy
+				}
+				switch how {
+				case 0:
+					e := c13Ep{Host: fmt.Sprintf("10.6.%d.%d", it%200, 50+vi), Port: 10000, WType: f[0].WType, Weight: f[0].Weight}
+					listed = append(listed, e)
+				case 1:
+					j := spare[rng.Intn(len(spare))]
+					listed = append(listed[:j:j], listed[j+1:]...)
+				default:
+					j := rng.Intn(len(listed))
+					for down[listed[j].Host] { // (a reinstated endpoint comes back with the weight its adapter was created with)
+						j = (j + 1) % len(listed)
+					}
+					if static {
+						listed[j].Weight = listed[j].Weight%100 + 4
+					} else {
+						listed[j].Weight += 1
+					}
+				}
+				rng.Shuffle(len(listed), func(i, j int) { listed[i], listed[j] = listed[j], listed[i] })
+				c.Ops = append(c.Ops, c13Op{Op: "refresh", Eps: append([]c13Ep(nil), listed...)})
+				cur = nil
+				for _, e := range c14MgrInstalledOrder(listed) {
+					if !down[e.Host] {
+						cur = append(cur, e)
+					}
+				}
+				sel(cur)
+				c.Class += "/refresh-while-down"
+			}
 		}
 		c.Class += fmt.Sprintf("/down-%d-of-%d", len(v), len(inst))
+		for j := range inst { // reinstated endpoints come back as the registry lists them now
+			for _, e := range listed {
+				if e.Host == inst[j].Host {
+					inst[j] = e
+				}
+			}
+		}
 		for _, p := range v {
 			c.Ops = append(c.Ops, c13Op{Op: "add", Eps: []c13Ep{inst[p]}})
 			cur = append(cur, inst[p])
@@ -478,6 +534,7 @@ func c14MgrHealthRun(c *c13Case) (fs []Failure) {
 	abs := &c13AbsSet{}
 	mep := func(e c13Ep) endpoint.Endpoint { return endpoint.Tars2endpoint(e.epf()) }
 	byHost := map[string]c13Ep{}
+	down := map[string]bool{} // deactivated by the health check and not yet reinstated
 	active := func() string { return strings.Join(m.ActiveEp(), ",") }
 	reported := map[string]bool{}
 	fail := func(sig, desc string) {
@@ -506,8 +563,22 @@ func c14MgrHealthRun(c *c13Case) (fs []Failure) {
 			}
 			_ = m.Refresh()
 			var inst []c13Ep // the model and the reference take the list in the order the manager installed it
+			want := map[string]bool{}
+			for _, e := range o.Eps {
+				if !down[e.Host] {
+					want[e.Host] = true
+				}
+			}
 			for _, h := range m.ActiveEp() {
+				if !want[h] {
+					fail("hash-routing/manager/installed-set-differs", fmt.Sprintf("after the refresh %s is installed; the registry answer minus the endpoints that are out does not contain it (active: %s)", h, active()))
+					continue
+				}
+				delete(want, h)
 				inst = append(inst, byHost[h])
+			}
+			if len(want) > 0 {
+				fail("hash-routing/manager/installed-set-differs", fmt.Sprintf("after the refresh %d listed healthy endpoints are not installed (active: %s)", len(want), active()))
 			}
 			o.Eps, o.Ok = inst, true
 			l := make([]endpoint.Endpoint, len(inst))
@@ -528,6 +599,9 @@ func c14MgrHealthRun(c *c13Case) (fs []Failure) {
 			m.CheckStatus()
 			o.Ok = !strings.Contains(","+active()+",", ","+o.Eps[0].Host+",")
 			_ = ref.Remove(mep(o.Eps[0]))
+			if o.Ok {
+				down[o.Eps[0].Host] = true
+			}
 			if want := abs.remove(o.Eps[0]); want != o.Ok {
 				fail("hash-routing/manager/endpoint-not-deactivated", fmt.Sprintf("after six failures and a status check %s is still active (%s)", o.Eps[0].Host, active()))
 			}
@@ -536,7 +610,11 @@ func c14MgrHealthRun(c *c13Case) (fs []Failure) {
 			if adp == nil {
 				return fs
 			}
+			// the endpoint comes back as its adapter holds it (created before a later refresh may have changed its weight)
+			pt := adp.GetPoint()
+			o.Eps[0] = c13Ep{Host: pt.Host, Port: pt.Port, Weight: pt.Weight, WType: pt.WeightType}
 			m.Reinstate(adp)
+			delete(down, o.Eps[0].Host)
 			o.Ok = strings.Contains(","+active()+",", ","+o.Eps[0].Host+",")
 			_ = ref.Add(mep(o.Eps[0]))
 			if want := abs.add(o.Eps[0]); want != o.Ok {
